@@ -11,7 +11,7 @@
 From Coq Require Import Reals Lra Psatz.
 From Coquelicot Require Import Coquelicot.
 From Cheetah Require Import Base.Mat Optics.Maps Optics.Sympl Optics.SymplProofs Bmadx.Coords Bmadx.DriftX Bmadx.Tdc
-  Bmadx.QuadX Bmadx.QuadXProofs.
+  Bmadx.QuadX Bmadx.QuadXProofs Bmadx.SymplX.
 Open Scope R_scope.
 
 (** the straight line through q with direction v, and a row of a matrix applied to a direction *)
@@ -162,4 +162,65 @@ Lemma locally_pos0 (f : R -> R) : ex_derive f 0 -> 0 < f 0 -> locally 0 (fun t =
 Proof.
   intros Hd Hp. apply ex_derive_continuous in Hd.
   apply (Hd (fun y => 0 < y)). apply (open_gt 0). exact Hp.
+Qed.
+
+(** * misalignment and tilt: offset_particle_set / offset_particle_unset are affine maps with symplectic matrices *)
+Lemma sympl_plus_rot a : symplectic_wrt S6plus (rot a).
+Proof. pose proof (sin2_cos2 a) as H. unfold Rsqr in H. unfold rot. entries; try ring; try (ring_simplify; lra). Qed.
+Lemma sympl_plus_shift mx my : symplectic_wrt S6plus (shift mx my).
+Proof. unfold shift. entries; ring. Qed.
+
+Definition off_in (ox oy tilt : R) : M7 R := rmmul (rot tilt) (mis_entry ox oy).
+Definition off_out (ox oy tilt : R) : M7 R := rmmul (mis_exit ox oy) (rot (- tilt)).
+Lemma affine_off_in ox oy t : affine (off_in ox oy t).
+Proof. apply affine_mul; [apply seventh_row_rot|apply seventh_row_shift]. Qed.
+Lemma affine_off_out ox oy t : affine (off_out ox oy t).
+Proof. apply affine_mul; [apply seventh_row_shift|apply seventh_row_rot]. Qed.
+Lemma sympl_off_in ox oy t : symplectic_wrt S6plus (off_in ox oy t).
+Proof. apply sympl_wrt_mul; [apply seventh_row_shift|apply sympl_plus_rot|apply sympl_plus_shift]. Qed.
+Lemma sympl_off_out ox oy t : symplectic_wrt S6plus (off_out ox oy t).
+Proof. apply sympl_wrt_mul; [apply seventh_row_rot|apply sympl_plus_shift|apply sympl_plus_rot]. Qed.
+
+(** conjugation of any Jacobian by the offset maps *)
+Lemma conj_off_has_jac (F : bpart -> bpart) ox oy tilt q J : affine J ->
+  has_jac F (off_set ox oy tilt q) J ->
+  has_jac (fun p => off_unset ox oy tilt (F (off_set ox oy tilt p))) q (rmmul (off_out ox oy tilt) (rmmul J (off_in ox oy tilt))).
+Proof.
+  intros HJ H.
+  apply (has_jac_post (off_out ox oy tilt) (off_unset ox oy tilt) (fun p => F (off_set ox oy tilt p))).
+  - apply affine_mul; [exact HJ|apply affine_off_in].
+  - intros p. apply off_unset_matrix.
+  - apply (has_jac_pre (off_in ox oy tilt) (off_set ox oy tilt) F); [apply affine_off_in|intros p; apply off_set_matrix|exact H].
+Qed.
+Lemma conj_off_sympl ox oy tilt J : affine J -> symplectic_wrt S6plus J ->
+  symplectic_wrt S6plus (rmmul (off_out ox oy tilt) (rmmul J (off_in ox oy tilt))).
+Proof.
+  intros HA HJ. apply sympl_wrt_mul.
+  - apply affine_mul; [exact HA|apply affine_off_in].
+  - apply sympl_off_out.
+  - apply sympl_wrt_mul; [apply affine_off_in|exact HJ|apply sympl_off_in].
+Qed.
+
+(** identity *)
+Lemma sympl_plus_I : symplectic_wrt S6plus rI.
+Proof. unfold rI, I7, e0, e1, e2, e3, e4, e5, e6. entries; ring. Qed.
+Lemma bvec_I q : bvec q = rmvec rI (bvec q).
+Proof. symmetry. apply (mvec_I RRth). Qed.
+Lemma bline_0 q v : bline q v 0 = q.
+Proof. destruct q as [x px y py z pz]. unfold bline; cbn [bx bpx by_ bpy bz bpz]. f_equal; ring. Qed.
+Lemma bpart_eq p q : bx p = bx q -> bpx p = bpx q -> by_ p = by_ q -> bpy p = bpy q -> bz p = bz q -> bpz p = bpz q -> p = q.
+Proof.
+  destruct p as [x px y py z pz], q as [x' px' y' py' z' pz']. cbn [bx bpx by_ bpy bz bpz]. intros; subst; reflexivity.
+Qed.
+
+(** * transfer to Cheetah coordinates: N = d(z,pz)/d(tau,delta) has the longitudinal block [[-beta, *],[0, 1/beta]] (determinant -1) *)
+Theorem bmadx_cheetah_sympl Jb Jc bin sin_ bout sout : bin <> 0 -> bout <> 0 -> symplectic_wrt S6plus Jb ->
+  rmmul (lin6 (long_change (- bout) sout 0 (1 / bout))) (lin6 Jc) = rmmul (lin6 Jb) (lin6 (long_change (- bin) sin_ 0 (1 / bin))) ->
+  symplectic Jc.
+Proof.
+  intros Hbi Hbo HJ Hrel.
+  apply (sympl_change_coords Jc Jb (long_change (- bin) sin_ 0 (1 / bin)) (long_change (- bout) sout 0 (1 / bout)) Hrel).
+  - apply coords_flip. apply cheetah_to_bmad_det. exact Hbi.
+  - apply coords_flip. apply cheetah_to_bmad_det. exact Hbo.
+  - exact HJ.
 Qed.
